@@ -34,6 +34,15 @@ Proof.
   destruct (Z.eqb_spec (Z.of_nat n + 1) 0); [lia|reflexivity].
 Qed.
 
+(* the guard under which nsync_note_new reaches its load of parent->notified, as generated from the source (0ed6400: n != NULL
+   && parent != NULL -- no longer "&& !nsync_note_is_notified (n)"), is the branch ret_D takes when the note's
+   nsync_note_is_notified (n) returns: on to W2 iff the parent is not NULL, whatever `expired` is *)
+Lemma new_guard n p : nsync_note_new_load1_guard (ptr_of (Some n)) (ptr_of p) = match p with Some _ => true | None => false end.
+Proof.
+  unfold nsync_note_new_load1_guard, ptr_of. destruct (Z.eqb_spec (Z.of_nat n + 1) 0); [lia|]. destruct p as [q|]; [|reflexivity].
+  destruct (Z.eqb_spec (Z.of_nat q + 1) 0); [lia|reflexivity].
+Qed.
+
 (* ------------------------------------------------------------------------------------------------ *)
 (* step = begin_call, then the step proper *)
 Definition stk (w : world) (t : nat) := stack (thr w t).
@@ -309,7 +318,7 @@ Record ext (t : nat) (w w' : world) : Prop := mk_ext {
   x_flag : forall m, (m < nnext w)%nat -> flag (nt w m) <> 0 -> flag (nt w' m) <> 0;
   x_imm : forall m, (m < nnext w)%nat -> cdl (nt w' m) = cdl (nt w m) /\ cpar (nt w' m) = cpar (nt w m);
   x_exp : forall m, (m < nnext w)%nat -> expiry (nt w' m) = expiry (nt w m) \/
-                    exists par dl p rest, stk w t = ANew par dl (W3 m p) :: rest /\ tlt (expiry (nt w' m)) dl = true /\
+                    exists par dl p e rest, stk w t = ANew par dl (W3 m p e) :: rest /\ tlt (expiry (nt w' m)) dl = true /\
                                           expiry (nt w' m) = notified_time w p (flag (nt w p));
   x_thr : forall t', t' <> t -> tsame (thr w' t') (thr w t');
   x_seen : incl (seen (gh w)) (seen (gh w'));
@@ -368,8 +377,8 @@ Ltac ext_chain :=
                    | set_note ?a ?n (set_children (nt ?a ?n) _) => apply (ext_trans_psame t w a); [| apply psame_set_children]
                    end ]
          end.
-Lemma ext_w3 t w par dl n p rest z pt :
-  stk w t = ANew par dl (W3 n p) :: rest -> pt = notified_time w p (flag (nt w p)) ->
+Lemma ext_w3 t w par dl n p e rest z pt :
+  stk w t = ANew par dl (W3 n p e) :: rest -> pt = notified_time w p (flag (nt w p)) ->
   let w1 := set_note w n (set_cinh (nt w n) true z) in
   ext t w (if tlt pt dl then set_note w1 n (set_expiry (nt w1 n) pt) else w1).
 Proof.
@@ -377,7 +386,7 @@ Proof.
   - split; cbn; auto using incl_refl, tsame_refl; try lia.
     + intros m _. fupd_cases; cbn; auto.
     + intros m _. fupd_cases; cbn; auto.
-    + intros m _. fupd_cases; cbn; auto; try congruence. right. exists par, dl, p, rest. auto.
+    + intros m _. fupd_cases; cbn; auto; try congruence. right. exists par, dl, p, e, rest. auto.
   - split; cbn; auto using incl_refl, tsame_refl; try lia.
     + intros m _. fupd_cases; cbn; auto.
     + intros m _. fupd_cases; cbn; auto.
@@ -456,7 +465,7 @@ Proof. intros H (a & Hp & Hc). exists a. split; auto. eapply cpath_trans; eauto.
 (* ------------------------------------------------------------------------------------------------ *)
 (* The "local" invariant: everything that does not depend on the locking discipline *)
 Definition uc_of (f : frame) : option nat :=
-  match f with ANew _ _ (WD n) | ANew _ _ (W2 n _) | ANew _ _ (W3 n _) | ANew _ _ (W4 n _) => Some n | _ => None end.
+  match f with ANew _ _ (WD n) | ANew _ _ (W2 n _ _) | ANew _ _ (W3 n _ _) | ANew _ _ (W4 n _) => Some n | _ => None end.
 Definition past_c2 (s : cst) : bool := match s with C1 | C2 => false | _ => true end.
 Definition nx_ok (w : world) (n : nat) (nx : option nat) : Prop := forall c', nx = Some c' -> (c' < nnext w)%nat /\ cpath w c' n.
 Definition child_ok (w : world) (n c : nat) (nx : option nat) : Prop := (c < nnext w)%nat /\ cpath w c n /\ nx_ok w n nx.
@@ -488,7 +497,7 @@ Definition fok (w : world) (t : nat) (f : frame) : Prop :=
       match s with
       | W1 => True
       | WD n => (n < nnext w)%nat /\ expiry (nt w n) = dl /\ cdl (nt w n) = dl /\ cpar (nt w n) = par
-      | W2 n p | W3 n p => (n < nnext w)%nat /\ expiry (nt w n) = dl /\ cdl (nt w n) = dl /\ cpar (nt w n) = par /\ par = Some p
+      | W2 n p _ | W3 n p _ => (n < nnext w)%nat /\ expiry (nt w n) = dl /\ cdl (nt w n) = dl /\ cpar (nt w n) = par /\ par = Some p
       | W4 n p => (n < nnext w)%nat /\ par = Some p
       end
   | AWait n dl s => (n < nnext w)%nat /\ (sb (thr w t) = true -> obs_notified w n /\ s = WReady) /\ (s = Q4 false -> obs_notified w n)
@@ -527,9 +536,9 @@ Qed.
 Lemma obs_ext t w w' n : InvA w -> ext t w w' -> (n < nnext w)%nat -> obs_notified w n -> obs_notified w' n.
 Proof.
   intros I E Hn [H|H]; [left; eapply x_flag; eauto|].
-  destruct (x_exp _ _ _ E n Hn) as [Eq|(par & dl & p & rest & Hst & Hlt & _)].
+  destruct (x_exp _ _ _ E n Hn) as [Eq|(par & dl & p & e & rest & Hst & Hlt & _)].
   - right. rewrite Eq. exact H.
-  - right. assert (fok w t (ANew par dl (W3 n p))) as F by (apply (ia_fok _ I); rewrite Hst; left; reflexivity).
+  - right. assert (fok w t (ANew par dl (W3 n p e))) as F by (apply (ia_fok _ I); rewrite Hst; left; reflexivity).
     destruct F as (_ & _ & _ & Ex & _). rewrite Ex in H. eapply tlt_tpos; eauto.
 Qed.
 
@@ -555,7 +564,7 @@ Qed.
    nsync_note_new -- the step is not that thread's own comparison with the parent *)
 Lemma fok_ext t0 w w' t f :
   InvA w -> ext t0 w w' -> In f (stk w t) -> sb (thr w' t) = sb (thr w t) ->
-  (t = t0 -> forall par dl n p rest, stk w t <> ANew par dl (W3 n p) :: rest) ->
+  (t = t0 -> forall par dl n p e rest, stk w t <> ANew par dl (W3 n p e) :: rest) ->
   fok w t f -> fok w' t f.
 Proof.
   intros I E Hin Hsb Hnw3 F.
@@ -578,24 +587,24 @@ Proof.
   - destruct F as (Hn & F1). rewrite Hsb. split; eauto using obs_ext.
   - destruct F as (Hn & F1 & F2). rewrite Hsb. repeat split; auto. eapply x_called; eauto.
   - (* ANew *) destruct F as (F0 & Fsb & F). split; [intros p Hp; auto|]. rewrite Hsb. split; [exact Fsb|].
-    assert (forall n, (n < nnext w)%nat -> uc_of (ANew par dl s) = Some n -> (forall p, s <> W3 n p \/ t <> t0) ->
+    assert (forall n, (n < nnext w)%nat -> uc_of (ANew par dl s) = Some n -> (forall p e, s <> W3 n p e \/ t <> t0) ->
                       expiry (nt w' n) = expiry (nt w n)) as EX.
-    { intros n Hn Huc Hs. destruct (x_exp _ _ _ E n Hn) as [Eq|(par' & dl' & p' & rest' & Hst' & _)]; [exact Eq|].
+    { intros n Hn Huc Hs. destruct (x_exp _ _ _ E n Hn) as [Eq|(par' & dl' & p' & e' & rest' & Hst' & _)]; [exact Eq|].
       exfalso.
       assert (t = t0).
-      { eapply (ia_uc _ I t t0 (ANew par dl s) (ANew par' dl' (W3 n p')) n); eauto. rewrite Hst'. left; reflexivity. }
-      subst t0. destruct (Hs p') as [Hs'|Hs']; [|congruence].
+      { eapply (ia_uc _ I t t0 (ANew par dl s) (ANew par' dl' (W3 n p' e')) n); eauto. rewrite Hst'. left; reflexivity. }
+      subst t0. destruct (Hs p' e') as [Hs'|Hs']; [|congruence].
       (* the ANew frame is the bottom frame of the stack; the top of the stack is an ANew frame at W3: same frame *)
       pose proof (ia_shape _ I t) as Sh. rewrite Hst' in Sh, Hin.
       destruct rest'; [|cbn in Sh; tauto].
       destruct Hin as [Hin|[]]. inversion Hin; subst. congruence. }
     destruct s; auto.
     + destruct F as (Hn & F1 & F2 & F3). destruct (x_imm _ _ _ E n Hn) as [E1 E2].
-      rewrite E1, E2, (EX n Hn eq_refl); [auto|]. intros p. left. discriminate.
+      rewrite E1, E2, (EX n Hn eq_refl); [auto|]. intros p e'. left. discriminate.
     + destruct F as (Hn & F1 & F2 & F3 & F4). destruct (x_imm _ _ _ E n Hn) as [E1 E2].
-      rewrite E1, E2, (EX n Hn eq_refl); [auto|]. intros p'. left. discriminate.
+      rewrite E1, E2, (EX n Hn eq_refl); [auto|]. intros p' e'. left. discriminate.
     + destruct F as (Hn & F1 & F2 & F3 & F4). destruct (x_imm _ _ _ E n Hn) as [E1 E2].
-      rewrite E1, E2, (EX n Hn eq_refl); [auto|]. intros p'.
+      rewrite E1, E2, (EX n Hn eq_refl); [auto|]. intros p' e'.
       destruct (Nat.eq_dec t t0); [|auto]. subst t0. exfalso.
       pose proof (ia_shape _ I t) as Sh.
       (* ANew .. (W3 n p) is in the stack, ANew frames are bottom frames; if it is not the top, the top is a callee: impossible for W3 *)
@@ -652,23 +661,23 @@ Ltac nsimpl :=
 
 Lemma step1_parent w t c m p :
   parent (nt (fst (step1 w t c)) m) = Some p ->
-  parent (nt w m) = Some p \/ (exists par dl, top w t = Some (ANew par dl (W3 m p)))
+  parent (nt w m) = Some p \/ (exists par dl e, top w t = Some (ANew par dl (W3 m p e)))
   \/ (exists n nx, top w t = Some (FF n (F7 m nx) (Some p))).
 Proof.
   unfold top, stk. leaves.
   all: nsimpl.
   all: try (intros H; first [discriminate H | left; exact H | congruence]).
-  all: intros H; inversion H; subst; cbn [hd_error]; eauto.
+  all: intros H; inversion H; subst; cbn [hd_error]; eauto 7.
 Qed.
 Lemma step1_children w t c m x :
   In x (children (nt (fst (step1 w t c)) m)) ->
-  In x (children (nt w m)) \/ (exists par dl, top w t = Some (ANew par dl (W3 x m)))
+  In x (children (nt w m)) \/ (exists par dl e, top w t = Some (ANew par dl (W3 x m e)))
   \/ (exists n nx, top w t = Some (FF n (F7 x nx) (Some m))).
 Proof.
   unfold top, stk. leaves.
   all: nsimpl.
   all: try (intros H; first [left; exact H | destruct H | left; eapply remove_nat_incl; exact H]).
-  all: try (intros H; apply in_app_or in H; destruct H as [H|[H|[]]]; [left; auto; try (eapply remove_nat_incl; exact H)| subst; cbn [hd_error]; eauto]).
+  all: try (intros H; apply in_app_or in H; destruct H as [H|[H|[]]]; [left; auto; try (eapply remove_nat_incl; exact H)| subst; cbn [hd_error]; eauto 7]).
 Qed.
 Lemma step1_flag w t c m :
   flag (nt (fst (step1 w t c)) m) <> 0 ->
@@ -790,7 +799,7 @@ Ltac old_frame I E Fk Hst :=
   eapply (fok_ext _ _ _ _ _ I E);
   [ unfold stk; rewrite Hst; cbn [In]; tauto
   | sb_tac
-  | intros _ ? ? ? ? ? Heq; unfold stk in Heq; rewrite Hst in Heq; discriminate Heq
+  | intros _ ? ? ? ? ? ? Heq; unfold stk in Heq; rewrite Hst in Heq; discriminate Heq
   | apply Fk; cbn [In]; tauto ].
 
 Lemma ntime_obs w n : tpos (notified_time w n (flag (nt w n))) = false -> obs_notified w n.
@@ -922,6 +931,11 @@ Proof.
                      match goal with Hn : (?n < nnext _)%nat |- _ => destruct (ia_par _ I n q Hn Ho) end end;
                    split; [lia | eapply cpath_ext; eauto] ].
   (* nsync_note_new *)
+  all: try solve [ unfold nt in *; nsimpl; congruence ].
+  all: try solve [ let p := fresh in let Hp := fresh in intros p Hp;
+                   match goal with F : forall q, _ = Some q -> (q < _)%nat |- _ => pose proof (F p Hp) end; cbn; lia ].
+  (* nsync_note_new goes on to the parent after the notify (n) inside its nsync_note_is_notified (n): the third frame's facts *)
+  all: pose proof (Fk _ (or_intror (or_intror (or_introl eq_refl)))) as F2; cbn [fok] in F2; destr_ex.
   all: try solve [ unfold nt in *; nsimpl; congruence ].
   all: try solve [ let p := fresh in let Hp := fresh in intros p Hp;
                    match goal with F : forall q, _ = Some q -> (q < _)%nat |- _ => pose proof (F p Hp) end; cbn; lia ].
@@ -1065,9 +1079,9 @@ Proof.
     + fold w' in Hf. rewrite Hn in Hf. cbn in Hf. congruence.
   - (* an expiry is a creation deadline on the path, or zero because of a notified ancestor *)
     intros m e Hm He. destruct (Fresh m Hm) as [Hm'|(-> & par & dl & rest & Hst & Eq & Hn)].
-    + destruct (x_exp _ _ _ E m Hm') as [Eq|(par & dl & p & rest & Hst & _ & Eq)].
+    + destruct (x_exp _ _ _ E m Hm') as [Eq|(par & dl & p & e0 & rest & Hst & _ & Eq)].
       * rewrite Eq in He. eapply exp_src_ext; eauto. apply (ia_exp _ I); auto.
-      * assert (fok w t (ANew par dl (W3 m p))) as F by (apply (ia_fok _ I); rewrite Hst; left; reflexivity).
+      * assert (fok w t (ANew par dl (W3 m p e0))) as F by (apply (ia_fok _ I); rewrite Hst; left; reflexivity).
         destruct F as (Fp & _ & _ & _ & _ & Fc & ->).
         pose proof (Fp p eq_refl) as Hp.
         assert (cpath w m p) as Hmp by (econstructor; [eauto|constructor]).
@@ -1079,7 +1093,7 @@ Proof.
   - pose proof (x_clock _ _ _ E). pose proof (ia_clock _ I). lia.
   - (* parent pointers go to creation-time ancestors *)
     intros m p Hm Hp. destruct (Fresh m Hm) as [Hm'|(-> & par & dl & rest & Hst & Eq & Hn)].
-    + destruct (step1_parent w t c m p Hp) as [H|[(par & dl & H)|(n & nx & H)]].
+    + destruct (step1_parent w t c m p Hp) as [H|[(par & dl & e0 & H)|(n & nx & H)]].
       * destruct (ia_par _ I m p Hm' H). split; [lia|eapply cpath_ext; eauto].
       * apply top_In in H. destruct (ia_fok _ I _ _ H) as (Fp & _ & _ & _ & _ & Fc & ->).
         pose proof (Fp p eq_refl). split; [lia|]. eapply cpath_ext; eauto. econstructor; [eauto|constructor].
@@ -1088,7 +1102,7 @@ Proof.
     + fold w' in Hp. rewrite Hn in Hp. cbn in Hp. discriminate.
   - (* children are creation-time descendants *)
     intros m x Hm Hx. destruct (Fresh m Hm) as [Hm'|(-> & par & dl & rest & Hst & Eq & Hn)].
-    + destruct (step1_children w t c m x Hx) as [H|[(par & dl & H)|(n & nx & H)]].
+    + destruct (step1_children w t c m x Hx) as [H|[(par & dl & e0 & H)|(n & nx & H)]].
       * destruct (ia_chl _ I m x Hm' H). split; [lia|eapply cpath_ext; eauto].
       * apply top_In in H. destruct (ia_fok _ I _ _ H) as (Fp & _ & Fn & _ & _ & Fc & ->).
         split; [lia|]. eapply cpath_ext; eauto. econstructor; [eauto|constructor].
